@@ -75,6 +75,7 @@ type irange struct {
 type boundsCtx struct {
 	w      *World
 	fn     *ssa.Function
+	root   *ssa.Function // the function whose frame the facts are taken in: fn, or the caller (chain) through which alone fn is entered
 	facts  *Facts
 	depth  int
 	ids    map[ssa.Value]string
@@ -86,7 +87,60 @@ func (bc *boundsCtx) sameSeq(a, b ssa.Value) bool {
 	if a == b {
 		return true
 	}
+	if bc.root != nil && bc.root != bc.fn {
+		if ra, rb := stripConv(bc.w.resolveUp(bc.root, a)), stripConv(bc.w.resolveUp(bc.root, b)); ra == rb {
+			return true
+		}
+	}
 	return bc.memID(a) == bc.memID(b)
+}
+
+// norm: the integer value v denotes, looking through value-preserving (widening) integer conversions and, inside a
+// helper, through the parameter to the argument of its only call site.
+func (bc *boundsCtx) norm(v ssa.Value) ssa.Value {
+	for i := 0; i < 6 && v != nil; i++ {
+		v = strip(v)
+		if cv, ok := v.(*ssa.Convert); ok && widening(cv.X.Type(), cv.Type()) {
+			v = cv.X
+			continue
+		}
+		if bc.root != nil && bc.root != bc.fn {
+			if u := bc.w.resolveUp(bc.root, v); u != v {
+				v = u
+				continue
+			}
+		}
+		break
+	}
+	return v
+}
+
+// widening: converting an integer of type from to type to preserves its value.
+func widening(from, to types.Type) bool {
+	fb, ok1 := from.Underlying().(*types.Basic)
+	tb, ok2 := to.Underlying().(*types.Basic)
+	if !ok1 || !ok2 || fb.Info()&types.IsInteger == 0 || tb.Info()&types.IsInteger == 0 {
+		return false
+	}
+	bits := func(b *types.Basic) int {
+		switch b.Kind() {
+		case types.Int8, types.Uint8:
+			return 8
+		case types.Int16, types.Uint16:
+			return 16
+		case types.Int32, types.Uint32:
+			return 32
+		}
+		return 64
+	}
+	fu, tu := fb.Info()&types.IsUnsigned != 0, tb.Info()&types.IsUnsigned != 0
+	switch {
+	case fu == tu:
+		return bits(tb) >= bits(fb)
+	case fu && !tu:
+		return bits(tb) > bits(fb)
+	}
+	return false
 }
 
 // ---- memory value numbering: two loads of the same location with no store between are the same value ----
@@ -568,9 +622,10 @@ func (bc *boundsCtx) rng(v ssa.Value, b *ssa.BasicBlock) irange {
 		}
 		op := bin.Op
 		var other ssa.Value
-		if bin.X == v {
+		nv := bc.norm(v)
+		if bin.X == v || bc.norm(bin.X) == nv {
 			other = bin.Y
-		} else if bin.Y == v {
+		} else if bin.Y == v || bc.norm(bin.Y) == nv {
 			other = bin.X
 			op = flipOp(op)
 		} else {
@@ -692,7 +747,8 @@ func (w *World) BoundsObligations(fns []*ssa.Function, just justTable) []panicSi
 	var out []panicSite
 	for _, fn := range fns {
 		old := w.focus
-		bc := &boundsCtx{w: w, fn: fn, facts: w.Facts(fn)}
+		root := w.soleEntry(fn, fns)
+		bc := &boundsCtx{w: w, fn: fn, root: root, facts: w.Facts(root)}
 		defer w.restoreFocus(old)
 		for _, b := range fn.Blocks {
 			if !bc.facts.Reachable(b) {
